@@ -33,7 +33,17 @@ type selfCase struct {
 	nocach bool
 }
 
+// selfNativeLater holds the native-mode runs of the conformance programs.  They are executed after
+// every exploration of this process: goroutines that a program leaves behind in native mode (blocked
+// on a real channel, or woken by a real timer) must not run into a later execution's world.
+var selfNativeLater []func()
+
 func runSelf(c *Ctx) {
+	defer func() {
+		for _, f := range selfNativeLater {
+			f()
+		}
+	}()
 	defer selfCacheSoundness(c)
 	selfConformance(c)
 	cases := selfCases()
@@ -444,7 +454,7 @@ func selfConformance(c *Ctx) {
 		}
 		// native mode: the rewritten program run outside of any execution (as the enumerating parts of
 		// the checks run library code) must behave like Go as well
-		func() {
+		selfNativeLater = append(selfNativeLater, func() {
 			defer func() {
 				if r := recover(); r != nil {
 					c.EnumFail("conformance", p.Name+"/native-mode-panic", fmt.Sprintf("the rewritten program panicked when run outside of an execution: %v", r), nil)
@@ -456,7 +466,7 @@ func selfConformance(c *Ctx) {
 					break
 				}
 			}
-		}()
+		})
 		for o := range explored {
 			if !allowed[o] {
 				c.EnumFail("conformance", p.Name+"/invented-by-vrt", fmt.Sprintf("the exploration produced %q which Go's semantics do not allow (%v)", o, p.Allowed), nil)
